@@ -298,19 +298,16 @@ def e9(ctx: Ctx):
     # hex literals: $hhhh below 0x8000, decimal above (BASIC09 integers are signed 16 bit)
     r = py.resolve_method("HexLiteral", "basic09_text")
     ctx.need(r is not None, "HexLiteral.basic09_text", "not found")
-    import ast as _ast
-
-    consts = []
-    for c in _ast.walk(r[1]):
-        if isinstance(c, _ast.Compare) and isinstance(c.comparators[0], _ast.Constant) and isinstance(c.comparators[0].value, int):
-            if isinstance(c.ops[0], _ast.Lt):
-                consts.append(c.comparators[0].value)
-            elif isinstance(c.ops[0], _ast.LtE):
-                consts.append(c.comparators[0].value + 1)
-            else:
-                consts.append(-1)
-    okh = len(consts) >= 2 and all(v == 0x8000 for v in consts)
-    ctx.ob("HexLiteral:threshold", okh, "" if okh else f"hex literals are emitted as $hhhh below {consts}; BASIC09 integer constants end at $7FFF", file="coco/b09/elements.py", line=r[1].lineno)
+    # decided on the instantiated text of the four boundary objects, not on the way the comparison is written
+    bad = []
+    for digits, flt, want in (("7FFF", False, "$7FFF"), ("7FFF", True, "float($7FFF)"), ("8000", False, "32768"), ("8000", True, "32768.0"), ("0", False, "$0"), ("FFFF", True, "65535.0")):
+        o = I.construct("HexLiteral", [Const(digits)], {"is_float": Const(flt)}, 0, "HexLiteral")
+        got = _render(I.call_function(r[1], [o, Const(0)], self_obj=o, owner=r[0].name))
+        ctx.need(all("{" not in g and "?" not in g for g in got) and got, "HexLiteral.basic09_text", f"text of HexLiteral({digits!r}, is_float={flt}) could not be computed: {sorted(got)}")
+        if got != {want}:
+            bad.append((digits, flt, sorted(got), want))
+    okh = not bad
+    ctx.ob("HexLiteral:threshold", okh, "" if okh else f"&H{bad[0][0]} ({'numeric context' if bad[0][1] else 'integer context'}) is emitted as {bad[0][2]}, expected {bad[0][3]!r}: BASIC09 hexadecimal constants are signed 16-bit integers and end at $7FFF, larger values have to be written in decimal", file="coco/b09/elements.py", line=r[1].lineno)
 
 
 def _reaches(p, start: str, target: str) -> bool:
